@@ -933,11 +933,11 @@ static bool parse_number(TokenContext &ctx, Chunk &pc)
          LOG_FMT(LBCTRL, "%s(%d): MS hexadecimal number\n", __func__, __LINE__);
          did_hex = true;
 
-         do
+         // there may be no digit at all between the leading 0 and the h ("0h")
+         while (is_hex_(ctx.peek()))
          {
             pc.Str().append(ctx.get()); // store the rest
-         } while (is_hex_(ctx.peek()));
-
+         }
          pc.Str().append(ctx.get());    // store the h
          LOG_FMT(LBCTRL, "%s(%d): pc:%s\n", __func__, __LINE__, pc.Text());
       }
